@@ -907,6 +907,9 @@ class TypeSystem:
             raise ValueError(f"Type with name [{name}] already exists!")
 
         supertype = self.get_type(supertypeName)
+        if supertype.name in _INHERITANCE_FINAL_TYPES:
+            # The supertype can also be given by its short name
+            raise ValueError(f"[{name}] cannot inherit from [{supertype.name}] because the latter is inheritance final")
         new_type = Type(name=name, supertype=supertype, description=description, typesystem=self)
 
         if name != TOP_TYPE_NAME:
